@@ -540,11 +540,11 @@ def run_case(deltas, op_specs, caps, cooldowns, last, turn=5, turn_type="int", s
         # mismatches that float absorption in duplicate merging explains are counted, not judged (see assumptions)
         return e.absorbing and not JUDGE_ABSORPTION and (sig.startswith("ref:") or sig.startswith("perm:"))
 
-    def account():
+    def account(unvalidated=1):
         if st is None:
             return
         st.add("transitions", ncalls)
-        st.add("validated", max(0, ncalls - 1))     # the junk/repeat call is compared with the first call only
+        st.add("validated", max(0, ncalls - unvalidated))   # the junk/repeat call is compared with the first call only
         if n_soft:
             st.add("float_absorption_mismatches_not_judged", n_soft)
         if e.absorbing:
@@ -569,9 +569,19 @@ def run_case(deltas, op_specs, caps, cooldowns, last, turn=5, turn_type="int", s
         _CTX_CACHE.pop(ctx_k, None)
     found = envelope(base, e, proposed, nov, l2, churn) + compare(base, e, caps)
     if found and ctx_shape != "both":
-        # does the outcome equal the documented pipeline under the built-in default caps (configured caps ignored)?
-        e0 = reference(deltas, op_specs, {}, last, turn, DEFAULT_CAPS["nov"], DEFAULT_CAPS["l2"], DEFAULT_CAPS["churn"])
-        if not compare(base, e0, DEFAULT_CAPS):
+        # Is this the configuration not being seen through this context shape?  Decided on the implementation itself:
+        # the outcome equals its own outcome for a context carrying the built-in default caps, and differs from its
+        # outcome for the same configured caps offered under both names.
+        dkey = (DEFAULT_CAPS["nov"], DEFAULT_CAPS["l2"], DEFAULT_CAPS["churn"], ())
+        dctx = get_ctx("both", _validated(*dkey), dkey, turn, turn_type)[0]
+        bctx = get_ctx("both", full_cfg, ckey, turn, turn_type)[0]
+        try:
+            dres = call_impl(dctx, build_state(state_shape, last), plan)
+            bres = call_impl(bctx, build_state(state_shape, last), plan)
+            ncalls += 2
+        except Exception:
+            dres = bres = None
+        if dres is not None and dres[:4] == base[:4] and bres[:4] != base[:4]:
             group = "cfg-only" if ctx_shape.startswith("cfg-only") else ctx_shape.split(":")[-1]
             hard = [f for f in found if f[0] != "ref:metrics"]
             if hard:   # the caps echo in metrics alone is not part of the statement: counted, not reported
@@ -582,7 +592,7 @@ def run_case(deltas, op_specs, caps, cooldowns, last, turn=5, turn_type="int", s
                 st.add("ctx_shape_caps_echo_only")
             if st is not None:
                 st.distinct("outcomes", ("ctx-shape", group, bool(hard)))
-            account()
+            account(unvalidated=2)      # the two diagnostic calls are not reference comparisons
             return out
     for sig, what in found:
         if soft(sig):
